@@ -3,11 +3,31 @@
 From FB Require Export C09.Model Base.Run.
 
 Inductive case :=
-| CMerge (A B : mappings) (r : res mappings).   (* Mappings::merge(&A, &B) *)
+| CMerge (A B : mappings) (r : res mappings)      (* Mappings::merge(&A, &B) *)
+| CMergeT (tbl : list str) (A B : mappings) (r : res mappings).
+  (* the same with a string table: in A, B and r every string is written as the one-element
+     list [i] and stands for the i-th entry of tbl (A, B and the result share almost all of
+     their strings, and Coq spends its time elaborating literals, not evaluating the model) *)
+
+Definition rs (tbl : list str) (s : str) : str :=
+  match s with [i] => nth (N.to_nat i) tbl [] | _ => s end.
+Definition rnames (tbl : list str) (l : names) : names := map (option_map (rs tbl)) l.
+Definition rdoc (tbl : list str) (d : option str) : option str := option_map (rs tbl) d.
+Definition rparam tbl (p : param) : param := mkParam (p_index p) (rnames tbl (p_names p)) (rdoc tbl (p_doc p)).
+Definition rfield tbl (f : field) : field := mkField (rs tbl (f_desc f)) (rnames tbl (f_names f)) (rdoc tbl (f_doc f)).
+Definition rmeth tbl (m : meth) : meth :=
+  mkMeth (rs tbl (m_desc m)) (rnames tbl (m_names m)) (rdoc tbl (m_doc m)) (map (rparam tbl) (m_params m)).
+Definition rclass tbl (c : class) : class :=
+  mkClass (rnames tbl (c_names c)) (rdoc tbl (c_doc c)) (map (rfield tbl) (c_fields c)) (map (rmeth tbl) (c_methods c)).
+Definition rmappings tbl (M : mappings) : mappings :=
+  mkMappings (map (rs tbl) (ms_ns M)) (rdoc tbl (ms_doc M)) (map (rclass tbl) (ms_classes M)).
 
 (* The comparison is exact, order included: the property fixes the order of the result
    (A's entries in A's order, then the entries only B has, in B's order). *)
 Definition check (c : case) : bool :=
   match c with
   | CMerge A B r => res_eqb mappings_eqb (merge A B) r
+  | CMergeT tbl A B r =>
+      res_eqb mappings_eqb (merge (rmappings tbl A) (rmappings tbl B))
+        (match r with Ok m => Ok (rmappings tbl m) | Err => Err end)
   end.
